@@ -255,12 +255,85 @@ def _init_a(seed):
         return
     _A["seed"] = seed
     _A["L"] = _alphabet_a(seed)
+    _A["V"] = _variants_a(seed)
     _A["GS"] = _gatesets(seed)
 
 
+_VBASE = 1000  # indices >= _VBASE address the fast-path variant letters
+
+
+def _variants_a(seed):
+    """Inverse / negative-exponent / out-of-period / special-angle variants of every gate kind that some target handles by a
+    known-gate fast path (Sycamore's known_2q_op table and SWAP+ZZ merge, AQT's Hadamard case, the CCZ decompositions, the
+    KAK special cases of the matrix-based targets).  All two-qubit variants sit on (a, b) so that c stays free."""
+    a, b, c = QA
+    g = core.generic(seed)
+    pi = np.pi
+    V = []
+
+    def add(name, op):
+        V.append((name, op, None))
+
+    for e in (-1.0, 3.0, 0.5, -0.5, 1.5, g):
+        add(f"ISWAP^{e}(a,b)", cirq.ISWAP(a, b) ** e)
+    for e in (1.0, -1.0, 3.0, 0.5, -0.5, g):
+        add(f"SWAP^{e}(a,b)", cirq.SWAP(a, b) ** e)
+    for e in (-1.0, 3.0, -0.5, 1.5):
+        add(f"CZ^{e}(a,b)", cirq.CZ(a, b) ** e)
+    for e in (-1.0, 3.0, 0.5, g):
+        add(f"CNOT^{e}(a,b)", cirq.CNOT(a, b) ** e)
+    for nm, gate in (("ZZ", cirq.ZZ), ("XX", cirq.XX), ("YY", cirq.YY)):
+        for e in (1.0, -1.0, 0.5, 3.0):
+            add(f"{nm}^{e}(a,b)", gate(a, b) ** e)
+    for th, ph in ((pi / 2, pi / 6), (-pi / 2, -pi / 6), (pi / 2, 0.0), (-pi / 2, 0.0), (pi / 4, 0.0), (-pi / 4, 0.0), (0.0, pi),
+                   (0.0, -pi), (0.0, pi / 2), (pi / 2, pi)):
+        add(f"FSim({th:.4f},{ph:.4f})(a,b)", cirq.FSimGate(th, ph)(a, b))
+    add("SYC^-1(a,b)", cirq_google.SYC(a, b) ** -1)
+    for pe in (0.25, -0.25, 0.0, g):
+        for e in (1.0, -1.0, g):
+            add(f"PhISwap(p={pe},e={e})(a,b)", cirq.PhasedISwapPowGate(phase_exponent=pe, exponent=e)(a, b))
+    add("givens(g)(a,b)", cirq.givens(g)(a, b))
+    add("givens(-pi/4)(a,b)", cirq.givens(-pi / 4)(a, b))
+    for e in (-1.0, 3.0, 0.5):
+        add(f"H^{e}(a)", cirq.H(a) ** e)
+    add("X^-1(a)", cirq.X(a) ** -1.0)
+    add("Y^-.5(b)", cirq.Y(b) ** -0.5)
+    add("Z^3(a)", cirq.Z(a) ** 3.0)
+    add("CCZ^-1", cirq.CCZ(a, b, c) ** -1.0)
+    add("CCX^-1(c,a,b)", cirq.CCX(c, a, b) ** -1.0)
+    return V
+
+
+def _variant_circuits():
+    """Index sequences: every variant alone; isolated next to an unrelated 1-qubit op on the third qubit (both orders);
+    SWAP next to a ZZ power on the same pair (the SWAP+ZZ merge path), alone and with the unrelated op."""
+    V = _A["V"]
+    w = _idx(("M1(c)",))[0]
+    seqs = []
+    for vi, (name, op, _r) in enumerate(V):
+        seqs.append((_VBASE + vi,))
+        if c_free(op):
+            seqs.append((_VBASE + vi, w))
+            seqs.append((w, _VBASE + vi))
+    pos = {l[0]: _VBASE + i for i, l in enumerate(V)}
+    sw = pos["SWAP^1.0(a,b)"]
+    for zn in ("ZZ^1.0(a,b)", "ZZ^-1.0(a,b)", "ZZ^0.5(a,b)", "ZZ^3.0(a,b)"):
+        for pair in ((sw, pos[zn]), (pos[zn], sw)):
+            seqs.append(pair)
+            seqs.append(pair + (w,))
+            seqs.append((w,) + pair)
+    return seqs
+
+
+def c_free(op):
+    return QA[2] not in op.qubits
+
+
 def _letter_a(gi, li):
-    """Letter index li: < len(L) -> general alphabet, else native extra letter of gateset gi."""
+    """Letter index li: < len(L) -> general alphabet, >= _VBASE -> fast-path variant, else native extra letter of gateset gi."""
     L = _A["L"]
+    if li >= _VBASE:
+        return _A["V"][li - _VBASE]
     if li < len(L):
         return L[li]
     op = _A["GS"][gi][2][li - len(L)]
@@ -1551,6 +1624,8 @@ def stages(tier, seed):
                         describe=_describe_compile))
     st.append(CaseStage("a2_compile_slow_targets", _cases_compile(tier, seed, slow=True), _timed(_run_compile),
                         describe=_describe_compile))
+    vcases = [(gi, pi, 0, seq) for seq in _variant_circuits() for gi in range(len(_A["GS"])) for pi in range(len(PASSES))]
+    st.append(CaseStage("a3_compile_fastpath_variants", vcases, _timed(_run_compile), describe=_describe_compile))
     st.append(CaseStage("b1_route_letter_sequences", _cases_route_letters(tier), _timed(_run_route_letters)))
     st.append(CaseStage("b2_route_all_placements", _cases_route_placements(tier, False), _timed(_run_route_placements)))
     st.append(CaseStage("b3_route_directed_graphs", _cases_route_placements(tier, True), _timed(_run_route_placements)))
